@@ -225,6 +225,104 @@ class Walk:
         else:
             self.git("checkout", "-q", rng.pick(self.branches))
 
+    # ---------------------------------------------------------------- directed recipes
+    DISCARDS = ["reset-hard", "checkout-dashdash", "checkout-path", "checkout-f", "restore", "restore-dir", "checkout-dir-slash",
+                "stash-drop", "stash-pop", "stash-path-pop", "stash-dir-pop", "rm-recreate", "mv-back", "reset-mixed", "clean-edit",
+                "switch-f", "stash-apply-drop"]
+
+    def directed_edit(self, who, p, lines, new_texts=()):
+        """write `lines` to p as `who` (agent protocol for sessions) and log it like op_edit does"""
+        if who != "human":
+            self.r.human_checkpoint([p])
+        self.r.write(p, "".join(l + "\n" for l in lines))
+        if who != "human":
+            for t in new_texts:
+                self.wrote[who].add(norm(t))
+            self.r.ai_checkpoint(who, [p], tool=S.TOOL)
+        else:
+            self.human_inplace.add(p)
+        self.log(op="edit", who=who, path=p, kind="directed", content=list(lines))
+
+    def run_recipe(self, x, pending_via):
+        """pending AI lines in two files (held in checkpoint entries, or in INITIAL after a partial commit);
+        a destructive operation that discards or shelves them; the person types other text at the same
+        positions; commit; oracle. Then one more human edit and commit (stale state may strike later)."""
+        r, rng = self.r, self.rng
+        f, g = "d/f3.txt", "f1.txt"
+        for p in (f, g, "f2.txt"):
+            r.write(p, "".join(self.fresh("human") + "\n" for _ in range(4 + rng.below(3))))
+        r.git("add", "-A"); r.git("commit", "-q", "-m", "base")
+        self.commits.append(r.head())
+        self.log(op="base", files={p: self.read_lines(p) for p in (f, g, "f2.txt")})
+        pos = {}
+        for p in (f, g):
+            ls = self.read_lines(p)
+            k = 1 + rng.below(len(ls) - 1)
+            new = [self.fresh("s1") for _ in range(2)]
+            pos[p] = k
+            self.directed_edit("s1", p, ls[:k] + new + ls[k:], new)
+        if pending_via == "initial":
+            # a partial commit of something else leaves both files' AI lines pending in INITIAL
+            self.directed_edit("human", "f2.txt", self.read_lines("f2.txt") + [self.fresh("human")])
+            self.git("add", "--", "f2.txt")
+            if self.git("commit", "-q", "-m", "partial") == 0:
+                self.commits.append(r.head())
+        # the discard
+        if x == "reset-hard": self.git("reset", "--hard")
+        elif x == "checkout-dashdash": self.git("checkout", "--", f)
+        elif x == "checkout-path": self.git("checkout", f)
+        elif x == "checkout-f": self.git("checkout", "-f")
+        elif x == "restore": self.git("restore", f)
+        elif x == "restore-dir": self.git("restore", "d")
+        elif x == "checkout-dir-slash": self.git("checkout", "--", "d/")
+        elif x == "stash-drop": self.git("stash", "push"); self.git("stash", "drop")
+        elif x == "stash-pop":
+            self.git("stash")
+            self.directed_edit("human", "f2.txt", [self.fresh("human")] + self.read_lines("f2.txt"))
+            self.git("add", "-A")
+            if self.git("commit", "-q", "-m", "while stashed") == 0:
+                self.commits.append(r.head())
+            self.git("stash", "pop")
+        elif x == "stash-path-pop":
+            self.git("stash", "push", "--", f)
+            self.git("add", "-A")
+            if self.git("commit", "-q", "-m", "while stashed") == 0:
+                self.commits.append(r.head())
+            self.git("stash", "pop")
+        elif x == "stash-dir-pop":
+            self.git("stash", "push", "--", "d")
+            self.git("add", "-A")
+            if self.git("commit", "-q", "-m", "while stashed") == 0:
+                self.commits.append(r.head())
+            self.git("stash", "pop")
+        elif x == "rm-recreate": self.git("rm", "-q", "-f", f)
+        elif x == "mv-back": self.git("mv", f, "d/moved.txt"); self.git("mv", "d/moved.txt", f)
+        elif x == "reset-mixed": self.git("add", "-A"); self.git("reset")
+        elif x == "switch-f":
+            self.git("switch", "-q", "-c", "side"); self.git("switch", "-q", "-f", "main")
+        elif x == "stash-apply-drop": self.git("stash"); self.git("stash", "apply"); self.git("stash", "drop")
+        # the person types other text where the AI lines were (in both files)
+        for p in (f, g):
+            ls = self.read_lines(p)
+            k = min(pos[p], len(ls))
+            own = [l for l in ls if norm(l) in self.wrote["s1"]]
+            if own and rng.chance(1, 2):
+                ls = [l for l in ls if l not in own]          # delete the AI lines first
+                k = min(k, len(ls))
+            ls[k:k] = [self.fresh("human") for _ in range(2 + rng.below(2))]
+            self.directed_edit("human", p, ls)
+        self.git("add", "-A")
+        if self.git("commit", "-q", "-m", "retyped") == 0:
+            self.commits.append(r.head())
+        self.check(f"recipe {x}/{pending_via}: after retype")
+        if self.failures:
+            return
+        self.directed_edit("human", f, [self.fresh("human")] + self.read_lines(f))
+        self.git("add", "-A")
+        if self.git("commit", "-q", "-m", "later") == 0:
+            self.commits.append(r.head())
+        self.check(f"recipe {x}/{pending_via}: one commit later")
+
     # ---------------------------------------------------------------- oracle
     def check(self, where):
         r = self.r
@@ -401,6 +499,36 @@ def _run_walk(seed, length):
         return [("runner-exception", {"error": repr(ex), "trace": traceback.format_exc()[-1500:]})], [], {}
 
 
+def run_recipe(args, _attempt=0):
+    seed, x, via = args
+    try:
+        with e2e.Env() as env:
+            w = Walk(env, seed)
+            w.run_recipe(x, via)
+            return w.failures, w.steps, {f"recipe:{x}/{via}": 1}
+    except Exception as ex:
+        if _attempt < 2:
+            return run_recipe(args, _attempt + 1)
+        return [("runner-exception", {"error": repr(ex), "trace": traceback.format_exc()[-1500:]})], [], {}
+
+
+def phase_recipes(res, seed, rounds, threads=16):
+    """directed histories: pending AI lines, a discarding or shelving operation, the person retypes"""
+    jobs = [(seed * 1000 + 17 * k + i, x, via) for k in range(rounds) for i, x in enumerate(Walk.DISCARDS) for via in ("initial", "entries")]
+    with concurrent.futures.ThreadPoolExecutor(threads) as ex:
+        outs = list(ex.map(run_recipe, jobs))
+    for job, (failures, steps, ops) in zip(jobs, outs):
+        res.count_case(json.dumps(steps, ensure_ascii=False), nontrivial=len(steps) > 5)
+        res.tag([f"op:{k}" for k in ops])
+        seen = set()
+        for sig, d in failures:
+            if sig in seen:
+                continue
+            seen.add(sig)
+            res.oracle_failure(sig, {"seed": job[0], "recipe": job[1], "pending_via": job[2], "detail": d,
+                                     "steps": [{k: v for k, v in st.items()} for st in steps]}, what=f"directed recipe {job[1]}/{job[2]}: {sig}")
+
+
 def phase_walks(res, seeds, length, threads=16):
     with concurrent.futures.ThreadPoolExecutor(threads) as ex:
         outs = list(ex.map(lambda s: run_walk(s, length), seeds))
@@ -422,6 +550,9 @@ def run(tier, seed):
     res.rule = ("end-to-end random walks (length 25 quick / 40 thorough) over commit (all/partial/amend), add, reset "
                 "(hard/soft/mixed), checkout (--/-f/branch), switch, restore, stash (push/pop/apply/drop), merge (+abort, "
                 "--squash), rebase, cherry-pick, revert, mv, rm, branch -D interleaved with AI (2 sessions) and human edits; "
+                "directed recipes: AI lines pending in two files (in checkpoint entries, or in INITIAL after a partial commit), one of 17 "
+                "discarding / shelving operations (reset --hard, checkout --/path/-f/dir, restore, stash drop/pop/pathspec pop, rm, mv, "
+                "reset, switch -f), the person retypes other text at the same positions, two commits; "
                 "oracle: every AI-reported line in every note and in blame has content its session reported writing; "
                 "non-trivial = more than 5 executed steps; distinct = distinct executed step list")
     res.rule += ("; correspondence: Sys model's predicted notes vs the binary's on generated commit / partial-commit histories")
@@ -449,6 +580,7 @@ def run(tier, seed):
                 res.oracle_failure("person-line-credited-to-session:commit-history",
                                    {"scenario": {k: v for k, v in sc.items() if not k.startswith("_")}, "detail": d},
                                    what="a line whose last substantive change was not a session's is listed for a session")
+    phase_recipes(res, seed, 1 if tier == "quick" else 12)
     n = 64 if tier == "quick" else 2000
     phase_walks(res, [seed * 100000 + i for i in range(n)], 25 if tier == "quick" else 40)
     if res.broken and not res.violations:
